@@ -272,3 +272,8 @@ def c12_check(cx, replay=None):
     return {'programs': len(results), 'disagreements_checked': len(diffs), 'dispatch_paths': npaths, 'engine': dict(stats)}
 
 REGISTRY['C12'] = c12_check
+
+
+import parsechecks
+REGISTRY['C16'] = lambda cx, replay=None: parsechecks.c16(cx)
+REGISTRY['C19'] = lambda cx, replay=None: parsechecks.c19(cx)
